@@ -21,6 +21,9 @@ Definition mem (x : nat) (l : list nat) : bool := existsb (Nat.eqb x) l.
 (* invalidations that concern variables still in scope *)
 Definition scope (n : nat) (inv : list nat) : list nat := filter (fun i => Nat.ltb i n) inv.
 
+(* duplicate-free union of invalidation sets (keeps them bounded by the number of variables) *)
+Definition union (a b : list nat) : list nat := a ++ filter (fun x => negb (mem x a)) b.
+
 Definition subset (a b : list nat) : bool := forallb (fun i => mem i b) a.
 
 Definition is_opt (t : ty) : bool := match t with TOpt _ => true | _ => false end.
@@ -162,7 +165,7 @@ Section check.
       match check_expr G inv a with
       | Some (a', TBool, i1) =>
         match check_expr G i1 b with
-        | Some (b', TBool, i2) => Some (EAnd a' b', TBool, i1 ++ i2)
+        | Some (b', TBool, i2) => Some (EAnd a' b', TBool, union i1 i2)
         | _ => None
         end
       | _ => None
@@ -171,7 +174,7 @@ Section check.
       match check_expr G inv a with
       | Some (a', TBool, i1) =>
         match check_expr G i1 b with
-        | Some (b', TBool, i2) => Some (EOr a' b', TBool, i1 ++ i2)
+        | Some (b', TBool, i2) => Some (EOr a' b', TBool, union i1 i2)
         | _ => None
         end
       | _ => None
@@ -188,7 +191,7 @@ Section check.
         | Some (b', tb, i2) =>
           if kle (kind_of tb) KS then
             match checked_join t tb with
-            | Some j => Some (ECoalesce a' b' (TOpt t) tb j, j, i1 ++ i2)
+            | Some j => Some (ECoalesce a' b' (TOpt t) tb j, j, union i1 i2)
             | None => None
             end
           else None
@@ -206,7 +209,7 @@ Section check.
             match checked_join ta tb with
             | Some j =>
               if negb (ce_strict C) || (ty_eqb ta j && ty_eqb tb j)
-              then Some (ECond c' a' b' ta tb j, j, i1 ++ i2) else None
+              then Some (ECond c' a' b' ta tb j, j, union i1 i2) else None
             | None => None
             end
           | None => None
@@ -429,7 +432,7 @@ Section check.
         | Some (b1', i1, r1) =>
           match check_block G i0 inloop b2 with
           | Some (b2', i2, r2) =>
-            Some (SIf c' b1' b2', G, scope (length G) i1 ++ scope (length G) i2, r1 && r2)
+            Some (SIf c' b1' b2', G, union (scope (length G) i1) (scope (length G) i2), r1 && r2)
           | None => None
           end
         | None => None
@@ -443,7 +446,7 @@ Section check.
         | Some (b1', i1, r1) =>
           match check_block G i0 inloop b2 with
           | Some (b2', i2, r2) =>
-            Some (SIfLet e' (TOpt t) b1' b2', G, scope (length G) i1 ++ scope (length G) i2, r1 && r2)
+            Some (SIfLet e' (TOpt t) b1' b2', G, union (scope (length G) i1) (scope (length G) i2), r1 && r2)
           | None => None
           end
         | None => None
@@ -457,7 +460,7 @@ Section check.
         | Some (b', i1, _) =>
           (* the loop must not invalidate resources declared outside it *)
           if subset (scope (length G) i1) inv
-          then Some (SWhile c' b', G, inv ++ i0, false) else None
+          then Some (SWhile c' b', G, union inv i0, false) else None
         | None => None
         end
       | _ => None
@@ -507,7 +510,7 @@ Section check.
       match check_stmt G inv inloop s with
       | Some (s', G1, i1, r1) =>
         match check_block G1 i1 inloop r with
-        | Some (r', i2, r2) => Some (BCons s' r', i1 ++ i2, r1 || r2)
+        | Some (r', i2, r2) => Some (BCons s' r', union i1 i2, r1 || r2)
         | None => None
         end
       | None => None
